@@ -76,7 +76,7 @@ type obs struct {
 // process-level guards: stage log, watchdog, memory guard
 
 const (
-	screenStack   = 64 << 20 // bytes: native stack limit while screening (a confirmation run uses Go's default 1 GB)
+	screenStack   = 16 << 20 // bytes: native stack limit while screening (a confirmation run uses Go's default 1 GB)
 	heapGuard     = 5 << 30  // bytes of live heap objects at which the worker gives up (inconclusive)
 	caseWatchdog  = 10 * time.Second // 3x for cases that run with the default stack (deep nesting, deep data)
 	markerOOM     = "VERIF-C03-MEMORY-GUARD"
